@@ -54,15 +54,22 @@ def fnOk (f : BatchFn) : Bool :=
   f.syncTrue + f.syncFalse + f.syncOther == f.commits &&
   f.viaCoordinator ≤ 1
 
+/-- functions whose body contains two commit SITES that are alternatives, not a sequence: the
+    coordinator submission and the synchronous fallback used when no coordinator is configured -/
+def coordinatorOrFallback : List String := ["commitPreparedRowsBatchResult", "commitPreparedCheckpointHWBatch"]
+
 def allowedDBMethods : List String := ["Close", "Get", "MetricsSnapshot", "NewBatch", "NewIter", "NewSnapshot"]
 
 /-- every batch-creating function of pkg/db/message issues exactly one batch, commits it once, at
     the top level of its body, with the literal `true`; the allow-listed exceptions are the only
-    multi-batch / unsynced ones; the engine turns sync=true into pebble.Sync and exposes no write
+    multi-batch / unsynced ones; no other function reaches two commit sites, counting calls of same-package
+    helpers that commit (transitively); the engine turns sync=true into pebble.Sync and exposes no write
     outside a batch; the coordinator commits each group once with `Commit(true)` and nothing
     outside tests replaces its commit function. -/
 def codeOneSyncedBatch : Bool :=
   batchFns.all fnOk &&
+  -- no function commits its own batch AND calls a same-package helper that commits (transitively)
+  multiCommitFns.all (fun e => multiBatchAllowed.contains e.1 || coordinatorOrFallback.contains e.1) &&
   multiBatchAllowed.all (fun n => batchFns.any (·.name == n)) &&
   unsyncedAllowed.all (fun n => batchFns.any (·.name == n)) &&
   cursorStoreCalls == ["AdvanceCommittedDispatchCursorDurable:true", "ConfirmCommittedDispatchCursorDurable:true",
